@@ -137,6 +137,7 @@ func loadProgram(o loadOpts) *Prog {
 			fatalf("package %s/%s not loaded", modPath, need)
 		}
 	}
+	curProg = p
 	return p
 }
 
